@@ -209,6 +209,9 @@ def run_case(case):
             kw = case["kw"]
             sa = kw["short_address"]
             sa = sa[1] if isinstance(sa, list) else sa
+            # a bus-wide map is kept up to date over time: the pair may have been recorded with another type before
+            for prev in case.get("map_history", []):
+                dmap.add_type(short_address=sa, instance_number=kw["instance_number"], instance_type=prev)
             dmap.add_type(short_address=sa, instance_number=kw["instance_number"], instance_type=case["maptype"])
         dec = command.from_frame(frame.ForwardFrame(len(f), f.as_integer), devicetype=obj.devicetype, dev_inst_map=dmap)
     except Exception as e:  # noqa
@@ -587,6 +590,10 @@ def _shard(arg):
         first = None
         for case in legal_cases(path, fam, cls, quick, seed):
             n += 1
+            if "maptype" in case and n % 2:
+                # every other device/instance event is decoded under a map whose entry was updated
+                case["map_history"] = [(case["maptype"] + 1 + n % 5) % 32, 0][: 1 + n % 2]
+                res.label("legal:map-with-history")
             if first is None:
                 first = case
             for sig, msg in run_case(case):
